@@ -470,31 +470,51 @@ class MayFlow(object):
         return out
 
     def solve_body(self, body):
+        """IN[bb] = events that may have happened before bb in this body; path-sensitive on drop flags (a flag-guarded
+        drop is only reached along paths on which the flag is still set)."""
         if body.path in self.rel_in:
             return self.rel_in[body.path]
-        IN = {0: frozenset()}
-        work = collections.deque([0])
-        inq = {0}
+        prod = body.flag_product()
+        if prod is None:
+            entry = 0
+            succ_of = lambda n: body.succs(n)
+            bb_of = lambda n: n
+        else:
+            entry, succ = prod
+            succ_of = lambda n: succ.get(n, ())
+            bb_of = lambda n: n[0]
+        gen_cache = {}
+
+        def gen_of(b):
+            if b not in gen_cache:
+                t = body.blocks[b]["term"]
+                g = frozenset()
+                if t["k"] in ("call", "drop"):
+                    g = frozenset(self.site_events(Site(body, b, t)))
+                gen_cache[b] = g
+            return gen_cache[b]
+        INN = {entry: frozenset()}
+        work = collections.deque([entry])
+        inq = {entry}
         while work:
-            b = work.popleft()
-            inq.discard(b)
-            cur = IN[b]
-            t = body.blocks[b]["term"]
-            g = frozenset()
-            if t["k"] in ("call", "drop"):
-                g = frozenset(self.site_events(Site(body, b, t)))
-            for s in body.succs(b):
-                out = cur | g
-                if s not in IN:
-                    IN[s] = out
+            n = work.popleft()
+            inq.discard(n)
+            out = INN[n] | gen_of(bb_of(n))
+            for s in succ_of(n):
+                if s not in INN:
+                    INN[s] = out
                     changed = True
                 else:
-                    changed = not out <= IN[s]
+                    changed = not out <= INN[s]
                     if changed:
-                        IN[s] = IN[s] | out
+                        INN[s] = INN[s] | out
                 if changed and s not in inq:
                     work.append(s)
                     inq.add(s)
+        IN = {}
+        for n, v in INN.items():
+            b = bb_of(n)
+            IN[b] = v if b not in IN else (IN[b] | v)
         self.rel_in[body.path] = IN
         return IN
 
